@@ -31,6 +31,7 @@ var transparentPrefixes = []string{
 	"github.com/ethereum/go-ethereum/common",
 	"github.com/tendermint/tendermint/proto/tendermint/crypto",
 	"github.com/tendermint/tendermint/abci/types",
+	"github.com/icza/gog", // tiny generic helpers (If, Ptr, ...)
 }
 
 func (e *Engine) transparentPkg(path string) bool {
